@@ -17,6 +17,8 @@ package main
 //   c20EmptyChecks      per resolve*Ref routine: the condition of its first statement when that is an `if`
 //   c20DrillConds       every `if` condition inside the drill closure of resolveComponent (source text)
 //   c20IsNilPointer     the body of isNilPointer (statements joined by "; ")
+//   c20PathItemIsEmpty  the fields (*PathItem).isEmpty looks at, in order (path_item.go)
+//   c20PathItemOps      the operation fields (*PathItem).Operations() collects, in order
 //   c20DerefCalls       (caller, callee) between InternalizeRefs / deref… functions of internalize_refs.go
 //   c20DerefGuards      (function, isVisited… method) for every deref… function that consults a visited set
 
@@ -282,6 +284,34 @@ func extractC20Loader(repo string) (string, error) {
 		return fn == "InternalizeRefs" || strings.HasPrefix(fn, "deref") || (strings.HasPrefix(fn, "add") && strings.HasSuffix(fn, "ToSpec"))
 	})
 
+	// ---- path_item.go: isEmpty and Operations
+	var piEmpty, piOps []string
+	if _, pf, _, err := parse("path_item.go"); err == nil {
+		for _, d := range pf.Decls {
+			fd, ok := d.(*ast.FuncDecl)
+			if !ok || fd.Body == nil || fd.Recv == nil {
+				continue
+			}
+			if fd.Name.Name != "isEmpty" && fd.Name.Name != "Operations" {
+				continue
+			}
+			ast.Inspect(fd.Body, func(n ast.Node) bool {
+				if se, ok := n.(*ast.SelectorExpr); ok {
+					if id, ok := se.X.(*ast.Ident); ok && id.Name == "pathItem" {
+						if fd.Name.Name == "isEmpty" {
+							piEmpty = append(piEmpty, fmt.Sprintf("%q", se.Sel.Name))
+						} else {
+							piOps = append(piOps, fmt.Sprintf("%q", se.Sel.Name))
+						}
+					}
+				}
+				return true
+			})
+		}
+	} else {
+		return "", err
+	}
+
 	// ---- schema.go: (*Schema).validate
 	sfset, sf, ssrc, err := parse("schema.go")
 	if err != nil {
@@ -355,7 +385,7 @@ func extractC20Loader(repo string) (string, error) {
 	sb.WriteString("-- generated by go/cmd/extract (table C20Loader) from openapi3/loader.go, schema.go, internalize_refs.go — do not edit\n")
 	sb.WriteString("import KinModel.LoadTypes\nnamespace KinModel.Gen\nopen KinModel.LoadTypes\n\n")
 	fmt.Fprintf(&sb, "-- rows: %d\n", len(resolvers)+len(readable)+len(otherAsserts)+len(panics)+len(edges)+len(loaderSel)+len(internSel)+
-		len(walkFuncs)+len(emptyChecks)+len(drillConds)+1+len(derefCalls)+len(derefGuards))
+		len(walkFuncs)+len(emptyChecks)+len(drillConds)+1+len(derefCalls)+len(derefGuards)+len(piEmpty)+len(piOps))
 	sb.WriteString("def c20Resolvers : List ResolverRow := [\n  " + strings.Join(resolvers, ",\n  ") + "]\n\n")
 	sb.WriteString("def c20Readable : List String := [" + strings.Join(readable, ", ") + "]\n\n")
 	sb.WriteString("def c20OtherAsserts : List (String × String) := [\n  " + strings.Join(otherAsserts, ",\n  ") + "]\n\n")
@@ -367,6 +397,8 @@ func extractC20Loader(repo string) (string, error) {
 	sb.WriteString("def c20EmptyChecks : List (String × String) := [\n  " + strings.Join(emptyChecks, ",\n  ") + "]\n\n")
 	sb.WriteString("def c20DrillConds : List String := [\n  " + strings.Join(drillConds, ",\n  ") + "]\n\n")
 	fmt.Fprintf(&sb, "def c20IsNilPointer : String := %q\n\n", isNilBody)
+	sb.WriteString("def c20PathItemIsEmpty : List String := [" + strings.Join(piEmpty, ", ") + "]\n\n")
+	sb.WriteString("def c20PathItemOps : List String := [" + strings.Join(piOps, ", ") + "]\n\n")
 	sb.WriteString("def c20DerefCalls : List (String × String) := [\n  " + strings.Join(derefCalls, ",\n  ") + "]\n\n")
 	sb.WriteString("def c20DerefGuards : List (String × String) := [\n  " + strings.Join(derefGuards, ",\n  ") + "]\n\nend KinModel.Gen\n")
 	return sb.String(), nil
